@@ -195,6 +195,8 @@ structure HeapInv (h : Heap) : Prop where
   frozen_inner : ∀ (f i : Addr), h[f]? = some (Obj.frozen i) → isOwned h i
   owned_closed : ∀ (a : Addr) (kvs : List (Key × Val)), h[a]? = some (Obj.dict true kvs) → ∀ p ∈ kvs, OwnedVal h p.2
   user_closed : ∀ (a : Addr) (kvs : List (Key × Val)), h[a]? = some (Obj.dict false kvs) → ∀ p ∈ kvs, UserVal h p.2
+  /-- a dict has distinct keys -/
+  keys_nodup : ∀ (a : Addr) (o : Bool) (kvs : List (Key × Val)), h[a]? = some (Obj.dict o kvs) → (kvs.map (·.1)).Nodup
   /-- owned dicts are built bottom-up: they only point to older objects (so a FrozenDict is never cyclic) -/
   owned_down : ∀ (a : Nat) (kvs : List (Key × Val)), h[a]? = some (Obj.dict true kvs) →
     ∀ p ∈ kvs, ∀ b : Nat, p.2 = Val.ref b → b < a
@@ -241,9 +243,9 @@ private theorem get_append_one {h : Heap} {o x : Obj} {a : Addr} (hg : (h ++ [o]
   · rw [List.getElem?_eq_none (by simp; omega)] at hg; cases hg
 
 private theorem HeapInv.alloc_dict {h : Heap} (hi : HeapInv h) (own : Bool) (kvs : List (Key × Val))
-    (hk : ∀ p ∈ kvs, Cls own h p.2) : HeapInv (h ++ [.dict own kvs]) := by
+    (hk : ∀ p ∈ kvs, Cls own h p.2) (hn : (kvs.map (·.1)).Nodup) : HeapInv (h ++ [.dict own kvs]) := by
   have e : Ext h (h ++ [.dict own kvs]) := Ext.append _ _
-  refine ⟨?_, ?_, ?_, ?_⟩
+  refine ⟨?_, ?_, ?_, ?_, ?_⟩
   · intro f i hf
     rcases get_append_one hf with h1 | ⟨_, h2⟩
     · exact OwnedVal.mono (v := .ref i) e (hi.frozen_inner f i h1)
@@ -256,6 +258,10 @@ private theorem HeapInv.alloc_dict {h : Heap} (hi : HeapInv h) (own : Bool) (kvs
     rcases get_append_one ha with h1 | ⟨_, h2⟩
     · exact UserVal.mono e (hi.user_closed a kvs' h1 p hp)
     · cases h2; exact UserVal.mono e (hk p hp)
+  · intro a o' kvs' ha
+    rcases get_append_one ha with h1 | ⟨_, h2⟩
+    · exact hi.keys_nodup a o' kvs' h1
+    · cases h2; exact hn
   · intro a kvs' ha p hp b hb
     rcases get_append_one ha with h1 | ⟨h3, h2⟩
     · exact hi.owned_down a kvs' h1 p hp b hb
@@ -271,7 +277,7 @@ private theorem HeapInv.alloc_dict {h : Heap} (hi : HeapInv h) (own : Bool) (kvs
 private theorem HeapInv.alloc_frozen {h : Heap} (hi : HeapInv h) (j : Addr) (hj : isOwned h j) :
     HeapInv (h ++ [.frozen j]) := by
   have e : Ext h (h ++ [.frozen j]) := Ext.append _ _
-  refine ⟨?_, ?_, ?_, ?_⟩
+  refine ⟨?_, ?_, ?_, ?_, ?_⟩
   · intro f i hf
     rcases get_append_one hf with h1 | ⟨_, h2⟩
     · exact OwnedVal.mono (v := .ref i) e (hi.frozen_inner f i h1)
@@ -283,6 +289,10 @@ private theorem HeapInv.alloc_frozen {h : Heap} (hi : HeapInv h) (j : Addr) (hj 
   · intro a kvs' ha p hp
     rcases get_append_one ha with h1 | ⟨_, h2⟩
     · exact UserVal.mono e (hi.user_closed a kvs' h1 p hp)
+    · cases h2
+  · intro a o' kvs' ha
+    rcases get_append_one ha with h1 | ⟨_, h2⟩
+    · exact hi.keys_nodup a o' kvs' h1
     · cases h2
   · intro a kvs' ha p hp b hb
     rcases get_append_one ha with h1 | ⟨_, h2⟩
@@ -355,6 +365,111 @@ private theorem mem_ord {α : Type} {c : Prop} [Decidable c] {kvs : List (Key ×
   · exact mem_sortKvs hp
   · exact hp
 
+private theorem insertKv_perm {α : Type} (p : Key × α) (l : List (Key × α)) : (insertKv p l).Perm (p :: l) := by
+  induction l with
+  | nil => simp [insertKv]
+  | cons q r ih =>
+    simp only [insertKv]
+    split
+    · exact List.Perm.refl _
+    · exact (List.Perm.cons q ih).trans (List.Perm.swap p q r)
+
+private theorem sortKvs_perm {α : Type} (l : List (Key × α)) : (sortKvs l).Perm l := by
+  induction l with
+  | nil => exact List.Perm.refl _
+  | cons q r ih =>
+    have : sortKvs (q :: r) = insertKv q (sortKvs r) := rfl
+    rw [this]
+    exact (insertKv_perm q _).trans (List.Perm.cons q ih)
+
+private theorem mapKvs_keys (f : Heap → Val → Except Err (Heap × Val)) :
+    ∀ (kvs : List (Key × Val)) (h h' : Heap) (kvs' : List (Key × Val)),
+      mapKvs f h kvs = .ok (h', kvs') → kvs'.map (·.1) = kvs.map (·.1) := by
+  intro kvs
+  induction kvs with
+  | nil => intro h h' kvs' hm; simp [mapKvs] at hm; rw [hm.2]
+  | cons p rest ih =>
+    intro h h' kvs' hm
+    obtain ⟨k, v⟩ := p
+    simp only [mapKvs] at hm
+    split at hm
+    · cases hm
+    · split at hm
+      · cases hm
+      · rename_i h2 rest' hrest
+        simp at hm
+        rw [← hm.2]
+        simp [ih _ _ _ hrest]
+
+private theorem nodup_sortKvs {α : Type} {l : List (Key × α)} (hn : (l.map (·.1)).Nodup) :
+    ((sortKvs l).map (·.1)).Nodup :=
+  (((sortKvs_perm l).map (·.1)).nodup_iff).mpr hn
+
+private theorem nodup_ord {α : Type} {c : Prop} [Decidable c] {l : List (Key × α)} (hn : (l.map (·.1)).Nodup) :
+    ((if c then sortKvs l else l).map (·.1)).Nodup := by
+  split
+  · exact nodup_sortKvs hn
+  · exact hn
+
+private theorem mem_kvSet' {α : Type} {kvs : List (Key × α)} {k : Key} {v : α} {p : Key × α}
+    (hp : p ∈ kvSet kvs k v) : p ∈ kvs ∨ p = (k, v) := by
+  induction kvs with
+  | nil => simp [kvSet] at hp; exact Or.inr hp
+  | cons q rest ih =>
+    obtain ⟨k', v'⟩ := q
+    simp only [kvSet] at hp
+    split at hp
+    · simp at hp
+      rcases hp with h1 | h1
+      · exact Or.inr h1
+      · exact Or.inl (by simp [h1])
+    · simp at hp
+      rcases hp with h1 | h1
+      · exact Or.inl (by simp [h1])
+      · rcases ih h1 with h2 | h2
+        · exact Or.inl (by simp [h2])
+        · exact Or.inr h2
+
+private theorem kvSet_keys_mem {α : Type} {l : List (Key × α)} {k : Key} {v : α} {x : Key}
+    (hx : x ∈ (kvSet l k v).map (·.1)) : x ∈ l.map (·.1) ∨ x = k := by
+  obtain ⟨p, hp, rfl⟩ := List.mem_map.mp hx
+  rcases mem_kvSet' hp with h1 | h1
+  · exact Or.inl (List.mem_map.mpr ⟨p, h1, rfl⟩)
+  · subst h1; exact Or.inr rfl
+
+private theorem nodup_kvSet {α : Type} {l : List (Key × α)} (k : Key) (v : α) (hn : (l.map (·.1)).Nodup) :
+    ((kvSet l k v).map (·.1)).Nodup := by
+  induction l with
+  | nil => simp [kvSet]
+  | cons q r ih =>
+    obtain ⟨k', v'⟩ := q
+    simp only [List.map_cons, List.nodup_cons] at hn
+    simp only [kvSet]
+    split
+    · rename_i hk; subst hk
+      simp only [List.map_cons, List.nodup_cons]; exact hn
+    · rename_i hk
+      simp only [List.map_cons, List.nodup_cons]
+      refine ⟨?_, ih hn.2⟩
+      intro hx
+      rcases kvSet_keys_mem hx with h1 | h1
+      · exact hn.1 h1
+      · exact hk h1
+
+private theorem nodup_kvErase {α : Type} {l : List (Key × α)} (k : Key) (hn : (l.map (·.1)).Nodup) :
+    ((kvErase l k).map (·.1)).Nodup := by
+  have : ((kvErase l k).map (·.1)).Sublist (l.map (·.1)) := by
+    simp only [kvErase]; exact (List.filter_sublist).map _
+  exact this.nodup hn
+
+private theorem nodup_kvUpdate {α : Type} {ys xs : List (Key × α)} (hn : (xs.map (·.1)).Nodup) :
+    ((kvUpdate xs ys).map (·.1)).Nodup := by
+  induction ys generalizing xs with
+  | nil => simpa [kvUpdate] using hn
+  | cons q r ih =>
+    simp only [kvUpdate, List.foldl_cons]
+    exact ih (nodup_kvSet q.1 q.2 hn)
+
 /-- the source may be anything valid, except that a walk allocating owned dicts in tree mode only
 ever runs over owned dicts (it copies the `_dict` of a FrozenDict) -/
 private def DeepPre (m : Mode) (own : Bool) (h : Heap) (v : Val) : Prop :=
@@ -409,7 +524,8 @@ private theorem deep_spec : ∀ (n : Nat) (m : Mode) (own : Bool) (h : Heap) (v 
             (fun _ _ _ e => DeepPre.mono e) (fun _ _ _ e => Cls.mono e)
             (fun h v h' v' => deep_ext n m own h v h' v')
             (fun h v h' v' hi hp hd => ih m own h v h' v' hm1 hm2 hi hp hd) _ _ _ _ hi hchild hmap
-          refine ⟨HeapInv.alloc_dict i1 own kvs' q1, ?_⟩
+          have hkeys := mapKvs_keys _ _ _ _ _ hmap
+          refine ⟨HeapInv.alloc_dict i1 own kvs' q1 (by rw [hkeys]; exact nodup_ord (hi.keys_nodup a o kvs hget)), ?_⟩
           cases own
           · exact Or.inl ⟨kvs', by simp⟩
           · exact ⟨kvs', by simp⟩
@@ -508,7 +624,8 @@ private theorem mapTree_spec {h : Heap} {kvs : List (Key × Val)} {n : Nat} {h1 
     _ _ _ _ hi (fun p hp => ⟨hk p hp, by simp⟩) hm
 
 private theorem mkFrozen_spec {h : Heap} {kvs : List (Key × Val)} {h' : Heap} {v' : Val}
-    (hi : HeapInv h) (hk : ∀ p ∈ kvs, AnyVal h p.2) (hm : mkFrozen h kvs = .ok (h', v')) :
+    (hi : HeapInv h) (hk : ∀ p ∈ kvs, AnyVal h p.2) (hn : (kvs.map (·.1)).Nodup)
+    (hm : mkFrozen h kvs = .ok (h', v')) :
     HeapInv h' ∧ UserVal h' v' := by
   simp only [mkFrozen] at hm
   split at hm
@@ -517,7 +634,7 @@ private theorem mkFrozen_spec {h : Heap} {kvs : List (Key × Val)} {h' : Heap} {
     simp at hm
     obtain ⟨rfl, rfl⟩ := hm
     obtain ⟨i1, q1⟩ := mapPrepare_spec hi hk hmap
-    have i2 := HeapInv.alloc_dict i1 true kvs' q1
+    have i2 := HeapInv.alloc_dict i1 true kvs' q1 (by rw [mapKvs_keys _ _ _ _ _ hmap]; exact hn)
     have i3 := HeapInv.alloc_frozen i2 h1.length ⟨kvs', by simp⟩
     have heq : h1 ++ [Obj.dict true kvs', Obj.frozen h1.length]
         = (h1 ++ [Obj.dict true kvs']) ++ [Obj.frozen h1.length] := by simp
@@ -536,7 +653,7 @@ private theorem wrapVal_spec {h : Heap} {v : Val} {h' : Heap} {v' : Val}
     split at hm
     · cases hm
     · rename_i o kvs hget
-      refine mkFrozen_spec hi ?_ hm
+      refine mkFrozen_spec hi ?_ (hi.keys_nodup a o kvs hget) hm
       intro p hp
       cases o with
       | true => exact Or.inr (hi.owned_closed a kvs hget p hp)
@@ -584,6 +701,27 @@ private theorem dictOf_spec {h : Heap} {x : Val} {h' : Heap} {kvs : List (Key ×
       · rename_i kvs0 hin
         exact mapWrap_spec hi (fun p hp => Or.inr (innerKvs_owned hi hget hin p hp)) hm
 
+private theorem dictOf_nodup {h : Heap} {x : Val} {h' : Heap} {kvs : List (Key × Val)}
+    (hi : HeapInv h) (hm : dictOf h x = .ok (h', kvs)) : (kvs.map (·.1)).Nodup := by
+  cases x with
+  | leaf l => simp [dictOf] at hm
+  | ref a =>
+    simp only [dictOf] at hm
+    split at hm
+    · cases hm
+    · rename_i o kvs0 hget
+      simp at hm; obtain ⟨rfl, rfl⟩ := hm
+      exact hi.keys_nodup a o _ hget
+    · rename_i i hget
+      split at hm
+      · cases hm
+      · rename_i kvs0 hin
+        rw [mapKvs_keys _ _ _ _ _ hm]
+        obtain ⟨kvs1, h1⟩ := hi.frozen_inner a i hget
+        simp [innerKvs, h1] at hin
+        subst hin
+        exact hi.keys_nodup i true _ h1
+
 /-! ### user writes -/
 
 private theorem get_set_ne {h : Heap} {a b : Addr} {o : Obj} (hne : a ≠ b) : (h.set a o)[b]? = h[b]? := by
@@ -617,9 +755,10 @@ private theorem OwnedVal.set {h : Heap} {a : Addr} {kvs kvs' : List (Key × Val)
     exact ⟨k1, by rw [get_set_ne hab]; exact h1⟩
 
 private theorem HeapInv.set_user {h : Heap} {a : Addr} {kvs kvs' : List (Key × Val)} (hi : HeapInv h)
-    (hg : h[a]? = some (.dict false kvs)) (hk : ∀ p ∈ kvs', UserVal h p.2) :
+    (hg : h[a]? = some (.dict false kvs)) (hk : ∀ p ∈ kvs', UserVal h p.2)
+    (hn : (kvs'.map (·.1)).Nodup) :
     HeapInv (h.set a (.dict false kvs')) := by
-  refine ⟨?_, ?_, ?_, ?_⟩
+  refine ⟨?_, ?_, ?_, ?_, ?_⟩
   · intro f i hf
     have hne : a ≠ f := by intro e; subst e; rw [get_set_eq hg] at hf; cases hf
     rw [get_set_ne hne] at hf
@@ -635,6 +774,13 @@ private theorem HeapInv.set_user {h : Heap} {a : Addr} {kvs kvs' : List (Key × 
       exact UserVal.set hg (hk p hp)
     · rw [get_set_ne hab] at hb
       exact UserVal.set hg (hi.user_closed b kvs2 hb p hp)
+  · intro b o2 kvs2 hb
+    by_cases hab : a = b
+    · subst hab
+      rw [get_set_eq hg] at hb; cases hb
+      exact hn
+    · rw [get_set_ne hab] at hb
+      exact hi.keys_nodup b o2 kvs2 hb
   · intro b kvs2 hb p hp c hc
     have hne : a ≠ b := by intro e; subst e; rw [get_set_eq hg] at hb; cases hb
     rw [get_set_ne hne] at hb
@@ -666,18 +812,19 @@ private theorem vals_of_kvs {h : Heap} {kvs : List (Key × Val)} (hk : ∀ p ∈
 
 private theorem sep_user_write {w : World} (hs : Sep w) {d : Nat} {a : Addr} {o : Bool}
     {kvs kvs' : List (Key × Val)} (hr : w.roots[d]? = some (.ref a))
-    (hg : w.heap[a]? = some (.dict o kvs)) (hk : ∀ p ∈ kvs', UserVal w.heap p.2) :
+    (hg : w.heap[a]? = some (.dict o kvs)) (hk : ∀ p ∈ kvs', UserVal w.heap p.2)
+    (hn : (kvs'.map (·.1)).Nodup) :
     Sep ⟨w.heap.set a (.dict o kvs'), w.roots⟩ := by
   have ho := root_dict_user hs hr hg
   subst ho
-  exact ⟨HeapInv.set_user hs.heap hg hk, fun v hv => UserVal.set hg (hs.roots v hv)⟩
+  exact ⟨HeapInv.set_user hs.heap hg hk hn, fun v hv => UserVal.set hg (hs.roots v hv)⟩
 
 /-! ### every operation preserves the invariant -/
 
 private theorem sep_newDict {w w' : World} (hs : Sep w) (h : step w .newDict = .ok w') : Sep w' := by
   simp only [step] at h
   cases h
-  refine ⟨HeapInv.alloc_dict hs.heap false [] (by simp), roots_ok hs (Ext.append _ _) ?_⟩
+  refine ⟨HeapInv.alloc_dict hs.heap false [] (by simp) (by simp), roots_ok hs (Ext.append _ _) ?_⟩
   intro v hv
   simp at hv; subst hv
   exact Or.inl ⟨[], by simp⟩
@@ -695,7 +842,7 @@ private theorem sep_setKey {w w' : World} {d : Nat} {k : Key} {src : Nat} (hs : 
   repeat' split at h
   all_goals first | cases h | skip
   rename_i a v hr hsrc _ o kvs hg
-  refine sep_user_write hs hr hg ?_
+  refine sep_user_write hs hr hg ?_ (nodup_kvSet _ _ (hs.heap.keys_nodup a o kvs hg))
   intro p hp
   have ho := root_dict_user hs hr hg
   subst ho
@@ -709,7 +856,7 @@ private theorem sep_delKey {w w' : World} {d : Nat} {k : Key} (hs : Sep w)
   repeat' split at h
   all_goals first | cases h | skip
   rename_i a hr _ o kvs hg _
-  refine sep_user_write hs hr hg ?_
+  refine sep_user_write hs hr hg ?_ (nodup_kvErase _ (hs.heap.keys_nodup a o kvs hg))
   intro p hp
   have ho := root_dict_user hs hr hg
   subst ho
@@ -757,7 +904,7 @@ private theorem sep_freeze {w w' : World} {x : Nat} (hs : Sep w)
   all_goals first | cases h | skip
   rename_i v hr _ h1 xs hd _ h2 r hm
   obtain ⟨i1, u1⟩ := dictOf_spec hs.heap (root_valid hs hr) hd
-  obtain ⟨i2, u2⟩ := mkFrozen_spec i1 (fun p hp => Or.inl (u1 p hp)) hm
+  obtain ⟨i2, u2⟩ := mkFrozen_spec i1 (fun p hp => Or.inl (u1 p hp)) (dictOf_nodup hs.heap hd) hm
   exact ⟨i2, roots_ok hs ((dictOf_ext hd).trans (mkFrozen_ext hm)) (single_ok u2)⟩
 
 private theorem deep_user_spec {n : Nat} {m : Mode} {h : Heap} {v : Val} {h' : Heap} {v' : Val}
@@ -791,7 +938,7 @@ private theorem sep_pickle {w w' : World} {x : Nat} (hs : Sep w)
   rename_i a hr _ i hg _ h1 u hd _ h2 xs hdo _ h3 r hm
   obtain ⟨i1, u1⟩ := deep_user_spec (by simp) hs.heap (root_valid hs hr) hd
   obtain ⟨i2, u2⟩ := dictOf_spec i1 u1 hdo
-  obtain ⟨i3, u3⟩ := mkFrozen_spec i2 (fun p hp => Or.inl (u2 p hp)) hm
+  obtain ⟨i3, u3⟩ := mkFrozen_spec i2 (fun p hp => Or.inl (u2 p hp)) (dictOf_nodup i1 hdo) hm
   exact ⟨i3, roots_ok hs (((deep_ext' hd).trans (dictOf_ext hdo)).trans (mkFrozen_ext hm)) (single_ok u3)⟩
 
 private theorem pair_ok {h : Heap} {r1 r2 : Val} (h1 : UserVal h r1) (h2 : UserVal h r2) :
@@ -810,7 +957,11 @@ private theorem sep_pop {w w' : World} {x : Nat} {k : Key} (hs : Sep w)
     obtain ⟨i1, u1⟩ := wrapVal_spec hs.heap (Or.inr (hown _ (kvGet_mem hk))) hw
     have e1 := wrapVal_ext hw
     obtain ⟨i2, u2⟩ := mkFrozen_spec i1
-      (fun p hp => Or.inr (OwnedVal.mono e1 (hown p (mem_kvErase hp)))) hm
+      (fun p hp => Or.inr (OwnedVal.mono e1 (hown p (mem_kvErase hp))))
+      (nodup_kvErase _ (by
+        obtain ⟨kv0, h0⟩ := hs.heap.frozen_inner a i hg
+        simp [innerKvs, h0] at hin; subst hin
+        exact hs.heap.keys_nodup i true _ h0)) hm
     have e2 := mkFrozen_ext hm
     exact ⟨i2, roots_ok hs (e1.trans e2) (pair_ok u2 (UserVal.mono e2 u1))⟩
   · rename_i a hr _ o kvs hg _ h1 kvs' hmap _ value hk
@@ -820,6 +971,7 @@ private theorem sep_pop {w w' : World} {x : Nat} {k : Key} (hs : Sep w)
       (fun p hp => Or.inl (hs.heap.user_closed a kvs hg p (mem_sortKvs hp))) hmap
     have e1 := mapDeep_ext hmap
     have i2 := HeapInv.alloc_dict i1 false (kvErase kvs' k) (fun p hp => u1 p (mem_kvErase hp))
+      (nodup_kvErase _ (by rw [mapKvs_keys _ _ _ _ _ hmap]; exact nodup_sortKvs (hs.heap.keys_nodup a false kvs hg)))
     have e2 : Ext h1 (h1 ++ [Obj.dict false (kvErase kvs' k)]) := Ext.append _ _
     refine ⟨i2, roots_ok hs (e1.trans e2) (pair_ok (Or.inl ⟨kvErase kvs' k, by simp⟩) (UserVal.mono e2 (u1 _ (kvGet_mem hk))))⟩
 
@@ -830,7 +982,7 @@ private theorem sep_copy {w w' : World} {x : Nat} {add : Option Nat} (hs : Sep w
   all_goals first | cases h | skip
   · rename_i a hr _ i hg _ h1 xs hd _ _ h2 r hm
     obtain ⟨i1, u1⟩ := dictOf_spec hs.heap (root_valid hs hr) hd
-    obtain ⟨i2, u2⟩ := mkFrozen_spec i1 (fun p hp => Or.inl (u1 p hp)) hm
+    obtain ⟨i2, u2⟩ := mkFrozen_spec i1 (fun p hp => Or.inl (u1 p hp)) (dictOf_nodup hs.heap hd) hm
     exact ⟨i2, roots_ok hs ((dictOf_ext hd).trans (mkFrozen_ext hm)) (single_ok u2)⟩
   · rename_i a hr _ i hg _ h1 xs hd _ ai _ av hadd _ h2 u hdeep _ h3 ys hd2 _ h4 r hm
     obtain ⟨i1, u1⟩ := dictOf_spec hs.heap (root_valid hs hr) hd
@@ -843,7 +995,7 @@ private theorem sep_copy {w w' : World} {x : Nat} {add : Option Nat} (hs : Sep w
       intro p hp
       rcases mem_kvUpdate hp with h5 | h5
       · exact Or.inl (UserVal.mono (e2.trans e3) (u1 p h5))
-      · exact Or.inl (u3 p h5)) hm
+      · exact Or.inl (u3 p h5)) (nodup_kvUpdate (dictOf_nodup hs.heap hd)) hm
     exact ⟨i4, roots_ok hs (((e1.trans e2).trans e3).trans (mkFrozen_ext hm)) (single_ok u4)⟩
   · rename_i a hr _ o kvs hg _ h1 kvs' hmap _
     have ho := root_dict_user hs hr hg
@@ -851,6 +1003,7 @@ private theorem sep_copy {w w' : World} {x : Nat} {add : Option Nat} (hs : Sep w
     obtain ⟨i1, u1⟩ := mapTree_spec hs.heap
       (fun p hp => Or.inl (hs.heap.user_closed a kvs hg p (mem_sortKvs hp))) hmap
     have i2 := HeapInv.alloc_dict i1 false kvs' u1
+      (by rw [mapKvs_keys _ _ _ _ _ hmap]; exact nodup_sortKvs (hs.heap.keys_nodup a false kvs hg))
     exact ⟨i2, roots_ok hs ((mapDeep_ext hmap).trans (Ext.append _ _)) (single_ok (Or.inl ⟨kvs', by simp⟩))⟩
   · rename_i a hr _ o kvs hg _ h1 kvs' hmap _ ai _ av hadd _ h2 ys hd
     have ho := root_dict_user hs hr hg
@@ -865,6 +1018,40 @@ private theorem sep_copy {w w' : World} {x : Nat} {add : Option Nat} (hs : Sep w
       rcases mem_kvUpdate hp with h5 | h5
       · exact UserVal.mono e2 (u1 p h5)
       · exact u2 p h5)
+      (nodup_kvUpdate (by rw [mapKvs_keys _ _ _ _ _ hmap]; exact nodup_sortKvs (hs.heap.keys_nodup a false kvs hg)))
+    exact ⟨i3, roots_ok hs ((e1.trans e2).trans (Ext.append _ _))
+      (single_ok (Or.inl ⟨kvUpdate kvs' ys, by simp⟩))⟩
+
+private theorem sep_copyView {w w' : World} {x ai : Nat} (hs : Sep w)
+    (h : step w (.copyView x ai) = .ok w') : Sep w' := by
+  simp only [step] at h
+  repeat' split at h
+  all_goals first | cases h | skip
+  · rename_i a av hr hadd _ i hg _ h1 xs hd _ h2 ys hd2 _ h3 r hm
+    obtain ⟨i1, u1⟩ := dictOf_spec hs.heap (root_valid hs hr) hd
+    have e1 := dictOf_ext hd
+    obtain ⟨i2, u2⟩ := dictOf_spec i1 (UserVal.mono e1 (root_valid hs hadd)) hd2
+    have e2 := dictOf_ext hd2
+    obtain ⟨i3, u3⟩ := mkFrozen_spec i2 (kvs := kvUpdate xs ys) (by
+      intro p hp
+      rcases mem_kvUpdate hp with h5 | h5
+      · exact Or.inl (UserVal.mono e2 (u1 p h5))
+      · exact Or.inl (u2 p h5)) (nodup_kvUpdate (dictOf_nodup hs.heap hd)) hm
+    exact ⟨i3, roots_ok hs ((e1.trans e2).trans (mkFrozen_ext hm)) (single_ok u3)⟩
+  · rename_i a av hr hadd _ o kvs hg _ h1 kvs' hmap _ h2 ys hd
+    have ho := root_dict_user hs hr hg
+    subst ho
+    obtain ⟨i1, u1⟩ := mapTree_spec hs.heap
+      (fun p hp => Or.inl (hs.heap.user_closed a kvs hg p (mem_sortKvs hp))) hmap
+    have e1 := mapDeep_ext hmap
+    obtain ⟨i2, u2⟩ := dictOf_spec i1 (UserVal.mono e1 (root_valid hs hadd)) hd
+    have e2 := dictOf_ext hd
+    have i3 := HeapInv.alloc_dict i2 false (kvUpdate kvs' ys) (by
+      intro p hp
+      rcases mem_kvUpdate hp with h5 | h5
+      · exact UserVal.mono e2 (u1 p h5)
+      · exact u2 p h5)
+      (nodup_kvUpdate (by rw [mapKvs_keys _ _ _ _ _ hmap]; exact nodup_sortKvs (hs.heap.keys_nodup a false kvs hg)))
     exact ⟨i3, roots_ok hs ((e1.trans e2).trans (Ext.append _ _))
       (single_ok (Or.inl ⟨kvUpdate kvs' ys, by simp⟩))⟩
 
@@ -881,6 +1068,7 @@ theorem step_preserves_sep (w w' : World) (op : Op) (hs : Sep w) (h : step w op 
   | freeze x => exact sep_freeze hs h
   | unfreeze x => exact sep_unfreeze hs h
   | copy x add => exact sep_copy hs h
+  | copyView x add => exact sep_copyView hs h
   | pop x k => exact sep_pop hs h
   | pickle x => exact sep_pickle hs h
   | treeMap x => exact sep_treeMap hs h
@@ -888,7 +1076,8 @@ theorem step_preserves_sep (w w' : World) (op : Op) (hs : Sep w) (h : step w op 
 /-- the empty world satisfies the invariant -/
 theorem sep_init : Sep World.init :=
   ⟨⟨by intro f i h; simp [World.init] at h, by intro a k h; simp [World.init] at h,
-    by intro a k h; simp [World.init] at h, by intro a k h; simp [World.init] at h⟩,
+    by intro a k h; simp [World.init] at h, by intro a o k h; simp [World.init] at h,
+    by intro a k h; simp [World.init] at h⟩,
    by intro v hv; simp [World.init] at hv⟩
 
 /-- the invariant holds after every history -/
@@ -1249,23 +1438,6 @@ mutual
       simp only
       rw [unflattenKvs_flattenKvs r rest]
 end
-
-private theorem insertKv_perm {α : Type} (p : Key × α) (l : List (Key × α)) : (insertKv p l).Perm (p :: l) := by
-  induction l with
-  | nil => simp [insertKv]
-  | cons q r ih =>
-    simp only [insertKv]
-    split
-    · exact List.Perm.refl _
-    · exact (List.Perm.cons q ih).trans (List.Perm.swap p q r)
-
-private theorem sortKvs_perm {α : Type} (l : List (Key × α)) : (sortKvs l).Perm l := by
-  induction l with
-  | nil => exact List.Perm.refl _
-  | cons q r ih =>
-    have : sortKvs (q :: r) = insertKv q (sortKvs r) := rfl
-    rw [this]
-    exact (insertKv_perm q _).trans (List.Perm.cons q ih)
 
 mutual
   private theorem mapEq_sortTree : ∀ (t : Tree), MapEq t (sortTree t)
@@ -2434,7 +2606,8 @@ private theorem mapKvs_total (f : Heap → Val → Except Err (Heap × Val))
     obtain ⟨⟨h1, v1⟩, hv⟩ := hf h (Ext.refl _) (k, v) (by simp)
     have e1 := f_ext _ _ _ _ hv
     obtain ⟨⟨h2, rest'⟩, hr⟩ := ih h1 (fun h2 e2 p hp => hf h2 (e1.trans e2) p (by simp [hp]))
-    exact ⟨_, by simp [mapKvs, hv, hr]⟩
+    simp only [mapKvs, hv, hr]
+    exact ⟨_, rfl⟩
 
 /-- **Fuel sufficiency**: a walk with fuel `n` over a value of depth `n` never fails (no `Recursion`,
 no `Dangling`), in every mode. -/
@@ -2445,28 +2618,29 @@ theorem deep_total : ∀ (n : Nat) (m : Mode) (own : Bool) (h : Heap) (v : Val),
   | zero =>
     intro m own h v d
     cases d with
-    | leaf l => exact ⟨_, by simp [deep]⟩
+    | leaf l => simp only [deep]; exact ⟨_, rfl⟩
   | succ n ih =>
     intro m own h v d
     cases d with
-    | leaf l => exact ⟨_, by simp [deep]⟩
+    | leaf l => simp only [deep]; exact ⟨_, rfl⟩
     | dict hg hk =>
       rename_i a o kvs
       obtain ⟨⟨h1, kvs'⟩, hm⟩ := mapKvs_total (deep m own n) (fun h v h' v' => deep_ext n m own h v h' v')
         (if m = .tree then sortKvs kvs else kvs) h
         (fun h1 e p hp => ih m own h1 p.2 (Depth.mono_ext e (hk p (mem_ord hp))))
-      exact ⟨_, by simp only [deep, hg, hm]⟩
+      simp only [deep, hg, hm]
+      exact ⟨_, rfl⟩
     | frozen hg di =>
       rename_i a i
       cases m with
-      | prepare => exact ⟨_, by simp [deep, hg]⟩
+      | prepare => simp only [deep, hg]; exact ⟨_, rfl⟩
       | unfreeze =>
         obtain ⟨r, hr⟩ := ih .tree own h (.ref i) di
-        exact ⟨r, by simp only [deep, hg]; exact hr⟩
+        simp only [deep, hg]; exact ⟨r, hr⟩
       | tree =>
         obtain ⟨⟨h1, v1⟩, hr⟩ := ih .tree true h (.ref i) di
         obtain ⟨j, rfl⟩ := deep_ref_result hr
-        exact ⟨_, by simp only [deep, hg, hr]⟩
+        simp only [deep, hg, hr]; exact ⟨_, rfl⟩
 
 private theorem depth_owned {h : Heap} (hi : HeapInv h) : ∀ (n : Nat) (a : Nat), a ≤ n →
     isOwned h a → Depth h (.ref a) (a + 1) := by
@@ -2510,5 +2684,872 @@ private theorem depth_ownedVal {h : Heap} (hi : HeapInv h) {v : Val} (hv : Owned
 theorem frozen_depth (w : World) (hs : Sep w) (f i : Addr) (hf : w.heap[f]? = some (Obj.frozen i)) :
     Depth w.heap (.ref f) (fuelOf w.heap) :=
   .frozen hf (depth_ownedVal hs.heap (v := .ref i) (hs.heap.frozen_inner f i hf))
+
+private theorem Ext.length_le {h h' : Heap} (e : Ext h h') : h.length ≤ h'.length := by
+  obtain ⟨ext, rfl⟩ := e; simp
+
+private theorem mapKvs_depth (f : Heap → Val → Except Err (Heap × Val)) (k : Nat)
+    (f_ext : ∀ h v h' v', f h v = .ok (h', v') → Ext h h')
+    (hf : ∀ h v h1 v1, f h v = .ok (h1, v1) → Depth h v k → Depth h1 v1 k) :
+    ∀ (kvs : List (Key × Val)) (h h2 : Heap) (kvs' : List (Key × Val)), mapKvs f h kvs = .ok (h2, kvs') →
+      (∀ p ∈ kvs, Depth h p.2 k) → ∀ p ∈ kvs', Depth h2 p.2 k := by
+  intro kvs
+  induction kvs with
+  | nil => intro h h2 kvs' hm _; simp [mapKvs] at hm; obtain ⟨rfl, rfl⟩ := hm; simp
+  | cons q rest ih =>
+    intro h h2 kvs' hm hd
+    obtain ⟨key, v⟩ := q
+    simp only [mapKvs] at hm
+    split at hm
+    · cases hm
+    · rename_i h1 v1 hfv
+      split at hm
+      · cases hm
+      · rename_i h2' rest' hrest
+        simp at hm; obtain ⟨rfl, rfl⟩ := hm
+        have e1 := f_ext _ _ _ _ hfv
+        have e2 := mapKvs_ext f f_ext _ _ _ _ hrest
+        intro p hp
+        simp at hp
+        rcases hp with rfl | hp
+        · exact (hf _ _ _ _ hfv (hd (key, v) (by simp))).mono_ext e2
+        · exact ih _ _ _ hrest (fun p hp' => (hd p (by simp [hp'])).mono_ext e1) p hp
+
+/-- a copy is no deeper than its source -/
+private theorem deep_depth : ∀ (n : Nat) (m : Mode) (own : Bool) (h : Heap) (v : Val) (h' : Heap) (v' : Val),
+    deep m own n h v = .ok (h', v') → ∀ k, Depth h v k → Depth h' v' k := by
+  intro n
+  induction n with
+  | zero =>
+    intro m own h v h' v' hd k d
+    cases v with
+    | leaf l => simp [deep] at hd; obtain ⟨rfl, rfl⟩ := hd; exact d
+    | ref a => simp [deep] at hd
+  | succ n ih =>
+    intro m own h v h' v' hd k d
+    cases v with
+    | leaf l => simp [deep] at hd; obtain ⟨rfl, rfl⟩ := hd; exact d
+    | ref a =>
+      simp only [deep] at hd
+      split at hd
+      · cases hd
+      · rename_i o kvs hget
+        split at hd
+        · cases hd
+        · rename_i h1 kvs' hmap
+          simp at hd
+          obtain ⟨rfl, rfl⟩ := hd
+          cases d with
+          | frozen hg _ => rw [hget] at hg; cases hg
+          | dict hg hk =>
+            rename_i k0
+            rw [hget] at hg; cases hg
+            have hc := mapKvs_depth (deep m own n) k0 (fun h v h' v' => deep_ext n m own h v h' v')
+              (fun h v h1 v1 hd => ih m own h v h1 v1 hd k0) _ _ _ _ hmap (fun p hp => hk p (mem_ord hp))
+            exact .dict (o := own) (kvs := kvs') (by simp)
+              (fun p hp => (hc p hp).mono_ext (Ext.append _ _))
+      · rename_i i hget
+        cases d with
+        | dict hg _ => rw [hget] at hg; cases hg
+        | frozen hg di =>
+          rename_i k0
+          rw [hget] at hg; cases hg
+          cases m with
+          | prepare =>
+            simp at hd; obtain ⟨rfl, rfl⟩ := hd
+            exact di.mono_fuel (by omega)
+          | unfreeze =>
+            simp only at hd
+            exact (ih .tree own h (.ref i) h' v' hd k0 di).mono_fuel (by omega)
+          | tree =>
+            simp only at hd
+            split at hd
+            · cases hd
+            · rename_i h1 j hr
+              simp at hd
+              obtain ⟨rfl, rfl⟩ := hd
+              have dj := ih .tree true h (.ref i) h1 (.ref j) hr k0 di
+              exact .frozen (i := j) (by simp) (dj.mono_ext (Ext.append _ _))
+            · cases hd
+
+private theorem mkFrozen_total {h : Heap} {kvs : List (Key × Val)}
+    (hk : ∀ p ∈ kvs, Depth h p.2 (fuelOf h)) : ∃ r, mkFrozen h kvs = .ok r := by
+  obtain ⟨⟨h1, kvs'⟩, hm⟩ := mapKvs_total (deep .prepare true (fuelOf h))
+    (fun h v h' v' => deep_ext _ _ _ h v h' v') kvs h
+    (fun h1 e p hp => deep_total _ _ _ h1 p.2 ((hk p hp).mono_ext e))
+  simp only [mkFrozen, hm]
+  exact ⟨_, rfl⟩
+
+private theorem wrapVal_total {h : Heap} {v : Val} (d : Depth h v (fuelOf h + 1)) : ∃ r, wrapVal h v = .ok r := by
+  cases d with
+  | leaf l => simp only [wrapVal]; exact ⟨_, rfl⟩
+  | dict hg hk =>
+    simp only [wrapVal, hg]
+    exact mkFrozen_total hk
+  | frozen hg _ => simp only [wrapVal, hg]; exact ⟨_, rfl⟩
+
+/-- values that are leaves or FrozenDict objects (what `__getitem__` and iteration hand out) -/
+private def FrozenVal (h : Heap) : Val → Prop
+  | .leaf _ => True
+  | .ref a => isFrozen h a
+
+private theorem FrozenVal.mono {h h' : Heap} (e : Ext h h') {v : Val} (hv : FrozenVal h v) : FrozenVal h' v := by
+  cases v with
+  | leaf l => trivial
+  | ref a => obtain ⟨i, hi⟩ := hv; exact ⟨i, e.get hi⟩
+
+private theorem FrozenVal.user {h : Heap} {v : Val} (hv : FrozenVal h v) : UserVal h v := by
+  cases v with
+  | leaf l => trivial
+  | ref a => exact Or.inr hv
+
+private theorem depth_frozenVal {h : Heap} (hi : HeapInv h) {v : Val} (hv : FrozenVal h v) :
+    Depth h v (fuelOf h) := by
+  cases v with
+  | leaf l => exact .leaf l _
+  | ref a =>
+    obtain ⟨i, hf⟩ := hv
+    exact .frozen hf (depth_ownedVal hi (v := .ref i) (hi.frozen_inner a i hf))
+
+private theorem mkFrozen_frozenVal {h : Heap} {kvs : List (Key × Val)} {h' : Heap} {v' : Val}
+    (hm : mkFrozen h kvs = .ok (h', v')) : FrozenVal h' v' := by
+  simp only [mkFrozen] at hm
+  split at hm
+  · cases hm
+  · rename_i h1 kvs' _
+    simp at hm
+    obtain ⟨rfl, rfl⟩ := hm
+    exact ⟨h1.length, by rw [List.getElem?_append_right (by omega)]; simp⟩
+
+private theorem wrapVal_frozenVal {h : Heap} {v : Val} {h' : Heap} {v' : Val}
+    (hm : wrapVal h v = .ok (h', v')) : FrozenVal h' v' := by
+  cases v with
+  | leaf l => simp [wrapVal] at hm; obtain ⟨rfl, rfl⟩ := hm; trivial
+  | ref a =>
+    simp only [wrapVal] at hm
+    split at hm
+    · cases hm
+    · exact mkFrozen_frozenVal hm
+    · rename_i i hg; simp at hm; obtain ⟨rfl, rfl⟩ := hm; exact ⟨i, hg⟩
+
+private theorem mapWrap_frozenVal : ∀ (kvs : List (Key × Val)) (h h2 : Heap) (kvs' : List (Key × Val)),
+    mapKvs wrapVal h kvs = .ok (h2, kvs') → ∀ p ∈ kvs', FrozenVal h2 p.2 := by
+  intro kvs
+  induction kvs with
+  | nil => intro h h2 kvs' hm; simp [mapKvs] at hm; obtain ⟨rfl, rfl⟩ := hm; simp
+  | cons q rest ih =>
+    intro h h2 kvs' hm
+    obtain ⟨key, v⟩ := q
+    simp only [mapKvs] at hm
+    split at hm
+    · cases hm
+    · rename_i h1 v1 hfv
+      split at hm
+      · cases hm
+      · rename_i h2' rest' hrest
+        simp at hm; obtain ⟨rfl, rfl⟩ := hm
+        intro p hp
+        simp at hp
+        rcases hp with rfl | hp
+        · exact (wrapVal_frozenVal hfv).mono (mapWrap_ext hrest)
+        · exact ih _ _ _ hrest p hp
+
+/-- `dict(fd)` / iteration over a FrozenDict never fails under the invariant -/
+private theorem dictOf_frozen_total {h : Heap} (hi : HeapInv h) {f i : Addr} (hf : h[f]? = some (Obj.frozen i)) :
+    ∃ h1 xs, dictOf h (.ref f) = .ok (h1, xs) := by
+  obtain ⟨kvs, hg⟩ := hi.frozen_inner f i hf
+  have hin : innerKvs h i = .ok kvs := by simp [innerKvs, hg]
+  obtain ⟨⟨h1, xs⟩, hm⟩ := mapKvs_total wrapVal (fun _ _ _ _ => wrapVal_ext) kvs h (by
+    intro h1 e p hp
+    refine wrapVal_total ?_
+    have d := depth_ownedVal hi (hi.owned_closed i kvs hg p hp)
+    have := e.length_le
+    exact (d.mono_ext e).mono_fuel (by simp [fuelOf]; omega))
+  exact ⟨h1, xs, by simp only [dictOf, hf, hin]; exact hm⟩
+
+/-- **No API call on a FrozenDict runs out of fuel** (or meets a dangling reference): with the fuel
+`step` uses, under the invariant, `unfreeze`, `tree_map`, `freeze`, `copy()`, iteration and pickling
+of a held FrozenDict succeed, and indexing / `pop` succeed or raise KeyError. -/
+theorem frozen_api_total (w : World) (hs : Sep w) (x : Nat) (f i : Addr)
+    (hx : w.roots[x]? = some (.ref f)) (hf : w.heap[f]? = some (Obj.frozen i)) :
+    (∃ w', step w (.unfreeze x) = .ok w') ∧ (∃ w', step w (.treeMap x) = .ok w') ∧
+    (∃ w', step w (.items x) = .ok w') ∧ (∃ w', step w (.freeze x) = .ok w') ∧
+    (∃ w', step w (.copy x none) = .ok w') ∧ (∃ w', step w (.pickle x) = .ok w') ∧
+    (∀ key, (∃ w', step w (.getitem x key) = .ok w') ∨ step w (.getitem x key) = .error .keyError) ∧
+    (∀ key, (∃ w', step w (.pop x key) = .ok w') ∨ step w (.pop x key) = .error .keyError) := by
+  have dF := frozen_depth w hs f i hf
+  obtain ⟨kvs, hg⟩ := hs.heap.frozen_inner f i hf
+  have hin : innerKvs w.heap i = .ok kvs := by simp [innerKvs, hg]
+  have hown := hs.heap.owned_closed i kvs hg
+  obtain ⟨h1, xs, hd⟩ := dictOf_frozen_total hs.heap hf
+  have hxs : ∀ p ∈ xs, FrozenVal h1 p.2 := by
+    simp only [dictOf, hf, hin] at hd
+    exact mapWrap_frozenVal _ _ _ _ hd
+  obtain ⟨i1, _⟩ := dictOf_spec hs.heap (x := .ref f) (Or.inr ⟨i, hf⟩) hd
+  obtain ⟨⟨h2, r⟩, hm⟩ := mkFrozen_total (h := h1) (kvs := xs) (fun p hp => depth_frozenVal i1 (hxs p hp))
+  refine ⟨?_, ?_, ?_, ?_, ?_, ?_, ?_, ?_⟩
+  · obtain ⟨⟨h', r'⟩, hr⟩ := deep_total _ .unfreeze false _ _ dF
+    simp only [step, hx, hr]
+    exact ⟨_, rfl⟩
+  · obtain ⟨⟨h', r'⟩, hr⟩ := deep_total _ .tree false _ _ dF
+    simp only [step, hx, hr]
+    exact ⟨_, rfl⟩
+  · simp only [step, hx, hf, hd]
+    exact ⟨_, rfl⟩
+  · simp only [step, hx, hd, hm]
+    exact ⟨_, rfl⟩
+  · simp only [step, hx, hf, hd, hm]
+    exact ⟨_, rfl⟩
+  · -- pickle: FrozenDict(unfreeze(fd))
+    obtain ⟨⟨hu, u⟩, hr⟩ := deep_total _ .unfreeze false _ _ dF
+    have du := deep_depth _ _ _ _ _ _ _ hr _ dF
+    have eu := deep_ext' hr
+    -- the result of unfreezing a FrozenDict is a reference to a fresh dict
+    have hr' := hr
+    simp only [fuelOf, deep, hf] at hr'
+    obtain ⟨j, kvsj, hj1, hj2⟩ := deep_of_dict hg hr'
+    subst hj1
+    have hdo : dictOf hu (.ref j) = .ok (hu, kvsj) := by simp [dictOf, hj2]
+    have hdj : ∀ p ∈ kvsj, Depth hu p.2 (fuelOf hu) := by
+      cases du with
+      | frozen hg' _ => rw [hj2] at hg'; cases hg'
+      | dict hg' hk =>
+        rw [hj2] at hg'; cases hg'
+        intro p hp
+        have := eu.length_le
+        exact (hk p hp).mono_fuel (by simp [fuelOf]; omega)
+    obtain ⟨⟨h3, r3⟩, hm3⟩ := mkFrozen_total hdj
+    simp only [step, hx, hf, hr, hdo, hm3]
+    exact ⟨_, rfl⟩
+  · intro key
+    cases hk : kvGet kvs key with
+    | none => exact Or.inr (by simp only [step, hx, hf, hin, hk])
+    | some v =>
+      obtain ⟨⟨h', v'⟩, hw⟩ := wrapVal_total (h := w.heap) (v := v)
+        ((depth_ownedVal hs.heap (hown _ (kvGet_mem hk))).mono_fuel (by simp [fuelOf]; omega))
+      refine Or.inl ?_
+      simp only [step, hx, hf, hin, hk, hw]
+      exact ⟨_, rfl⟩
+  · intro key
+    cases hk : kvGet kvs key with
+    | none => exact Or.inr (by simp only [step, hx, hf, hin, hk])
+    | some v =>
+      obtain ⟨⟨h', v'⟩, hw⟩ := wrapVal_total (h := w.heap) (v := v)
+        ((depth_ownedVal hs.heap (hown _ (kvGet_mem hk))).mono_fuel (by simp [fuelOf]; omega))
+      have e1 := wrapVal_ext hw
+      obtain ⟨⟨h3, r3⟩, hm3⟩ := mkFrozen_total (h := h') (kvs := kvErase kvs key) (by
+        intro p hp
+        have := e1.length_le
+        exact ((depth_ownedVal hs.heap (hown p (mem_kvErase hp))).mono_ext e1).mono_fuel (by simp [fuelOf]; omega))
+      refine Or.inl ?_
+      simp only [step, hx, hf, hin, hk, hw, hm3]
+      exact ⟨_, rfl⟩
+
+/-! ## more content theorems: iteration, and `copy` / `pop` on plain dicts -/
+
+private theorem mkFrozen_fresh {h : Heap} {kvs : List (Key × Val)} {h' : Heap} {v' : Val}
+    (hm : mkFrozen h kvs = .ok (h', v')) : ∃ b, v' = .ref b ∧ h.length ≤ b := by
+  simp only [mkFrozen] at hm
+  split at hm
+  · cases hm
+  · rename_i h1 kvs' hmap
+    simp at hm
+    obtain ⟨rfl, rfl⟩ := hm
+    have := (mapDeep_ext hmap).length_le
+    exact ⟨h1.length + 1, rfl, by omega⟩
+
+private theorem mapWrap_fresh : ∀ (kvs : List (Key × Val)) (h h2 : Heap) (kvs' : List (Key × Val)),
+    mapKvs wrapVal h kvs = .ok (h2, kvs') →
+    (∀ p ∈ kvs, ∀ a, p.2 = Val.ref a → ∃ o kv, h[a]? = some (Obj.dict o kv)) →
+    ∀ p ∈ kvs', ∀ b, p.2 = Val.ref b → h.length ≤ b := by
+  intro kvs
+  induction kvs with
+  | nil => intro h h2 kvs' hm _; simp [mapKvs] at hm; obtain ⟨rfl, rfl⟩ := hm; simp
+  | cons q rest ih =>
+    intro h h2 kvs' hm hd
+    obtain ⟨key, v⟩ := q
+    simp only [mapKvs] at hm
+    split at hm
+    · cases hm
+    · rename_i h1 v1 hfv
+      split at hm
+      · cases hm
+      · rename_i h2' rest' hrest
+        simp at hm; obtain ⟨rfl, rfl⟩ := hm
+        have e1 := wrapVal_ext hfv
+        intro p hp b hb
+        simp at hp
+        rcases hp with rfl | hp
+        · cases v with
+          | leaf l => simp [wrapVal] at hfv; obtain ⟨_, rfl⟩ := hfv; cases hb
+          | ref a =>
+            obtain ⟨o, kv, hg⟩ := hd (key, .ref a) (by simp) a rfl
+            simp only [wrapVal, hg] at hfv
+            obtain ⟨b', hb1, hb2⟩ := mkFrozen_fresh hfv
+            simp at hb
+            rw [hb1] at hb; cases hb; exact hb2
+        · have := ih _ _ _ hrest (fun p hp' a ha => by
+            obtain ⟨o, kv, hg⟩ := hd p (by simp [hp']) a ha
+            exact ⟨o, kv, e1.get hg⟩) p hp b hb
+          have := e1.length_le
+          omega
+
+/-- **Iterating a FrozenDict (`items()`, `values()`, `dict(fd)`, `{**fd}`) yields, key by key, the
+stored contents; every nested dict comes out as a *fresh* FrozenDict object** (allocated by this
+call), never as the stored dict itself. -/
+theorem items_same_content (w w' : World) (hsep : Sep w) (x : Nat) (f i : Addr) (k : Nat) (ts : List (Key × Tree))
+    (hs : step w (.items x) = .ok w') (hx : w.roots[x]? = some (.ref f))
+    (hf : w.heap[f]? = some (Obj.frozen i))
+    (ha : absVal false (k + 1) w.heap (.ref f) = some (.node true ts)) :
+    ∃ kvs' ts', w'.roots = w.roots ++ kvs'.map (·.2) ∧
+      absKvs (absVal false k w'.heap) kvs' = some ts' ∧ canonKvs ts' = canonKvs ts ∧
+      ∀ p ∈ kvs', ∀ b, p.2 = Val.ref b → w.heap.length ≤ b ∧ ∃ j, w'.heap[b]? = some (Obj.frozen j) := by
+  simp only [step, hx, hf] at hs
+  split at hs
+  · cases hs
+  · rename_i h1 kvs' hd
+    cases hs
+    obtain ⟨k0, oi, kvsi, ts0, hk, hi, hts, hnode⟩ := absVal_frozen_inv hf ha
+    have hk : k0 = k := by omega
+    subst hk
+    injection hnode with _ hnode
+    subst hnode
+    simp only [dictOf, hf, innerKvs, hi] at hd
+    obtain ⟨ts', h2, hc⟩ := mapKvs_content wrapVal (fun _ _ _ _ => wrapVal_ext)
+      (fun h v h1 v1 hd fz fz' k t => wrapVal_content hd fz fz' k t) _ _ _ _ hd true false k0 ts hts
+    refine ⟨kvs', ts', rfl, h2, hc, ?_⟩
+    intro p hp b hb
+    have hown := hsep.heap.owned_closed i kvsi (by
+      obtain ⟨kv, hkv⟩ := hsep.heap.frozen_inner f i hf
+      rw [hi] at hkv; cases hkv; exact hi)
+    refine ⟨mapWrap_fresh _ _ _ _ hd (fun p hp a ha => ?_) p hp b hb, ?_⟩
+    · have := hown p hp
+      rw [ha] at this
+      obtain ⟨kv, hkv⟩ := this
+      exact ⟨true, kv, hkv⟩
+    · have := mapWrap_frozenVal _ _ _ _ hd p hp
+      rw [hb] at this
+      exact this
+
+/-- **module-level `copy(d)` on a plain dict returns a dict with the same contents** -/
+theorem copy_dict_same_content (w w' : World) (x : Nat) (a : Addr) (o : Bool) (kvs : List (Key × Val))
+    (k : Nat) (t : Tree)
+    (hs : step w (.copy x none) = .ok w') (hx : w.roots[x]? = some (.ref a))
+    (hg : w.heap[a]? = some (Obj.dict o kvs))
+    (ha : absVal false k w.heap (.ref a) = some t) :
+    ∃ r t', w'.roots = w.roots ++ [r] ∧ absVal false k w'.heap r = some t' ∧ SameContent t' t := by
+  simp only [step, hx, hg] at hs
+  split at hs
+  · cases hs
+  · rename_i h1 kvs' hmap
+    cases hs
+    have hdeep : deep .tree false (fuelOf w.heap + 1) w.heap (.ref a)
+        = .ok (h1 ++ [Obj.dict false kvs'], .ref h1.length) := by
+      simp only [deep, hg, if_true, hmap]
+    obtain ⟨t', ht', hc⟩ := deep_content _ _ _ _ _ _ _ hdeep false false k t ha
+    exact ⟨_, t', rfl, ht', hc⟩
+
+private theorem canonKvs_erase (l : List (Key × Tree)) (key : Key) :
+    canonKvs (kvErase l key) = kvErase (canonKvs l) key := by
+  induction l with
+  | nil => rfl
+  | cons q r ih =>
+    obtain ⟨k, t⟩ := q
+    simp only [kvErase] at ih ⊢
+    by_cases hk : k = key
+    · simp [canonKvs, hk, ih]
+    · simp [canonKvs, hk, ih]
+
+private theorem lookupT_canonKvs (l : List (Key × Tree)) (key : Key) :
+    lookupT key (canonKvs l) = (lookupT key l).map canon := by
+  induction l with
+  | nil => rfl
+  | cons q r ih =>
+    obtain ⟨k, t⟩ := q
+    simp only [canonKvs, lookupT]
+    split
+    · rfl
+    · exact ih
+
+/-- **module-level `pop(d, key)` on a plain dict**: jax rebuilds the copy with sorted keys, so the
+statement is relative to the sorted entries of `d`: the returned dict has the contents of those
+entries without `key`, the returned value the contents stored under `key`. -/
+theorem pop_dict_same_content (w w' : World) (x : Nat) (key : Key) (a : Addr) (o : Bool)
+    (kvs : List (Key × Val)) (k : Nat) (ts : List (Key × Tree))
+    (hs : step w (.pop x key) = .ok w') (hx : w.roots[x]? = some (.ref a))
+    (hg : w.heap[a]? = some (Obj.dict o kvs))
+    (ha : absVal false (k + 1) w.heap (.ref a) = some (.node false ts)) :
+    ∃ rest value t1 t2 tc, w'.roots = w.roots ++ [rest, value] ∧
+      absVal false (k + 1) w'.heap rest = some t1 ∧
+      SameContent t1 (.node false (kvErase (sortKvs ts) key)) ∧
+      lookupT key (sortKvs ts) = some tc ∧
+      absVal false k w'.heap value = some t2 ∧ SameContent t2 tc := by
+  simp only [step, hx, hg] at hs
+  repeat' split at hs
+  all_goals first | cases hs | skip
+  rename_i h1 kvs' hmap _ value hget
+  rw [absVal_dict hg] at ha
+  simp only [Option.map_eq_some_iff] at ha
+  obtain ⟨ts0, hts, hnode⟩ := ha
+  injection hnode with _ hnode
+  subst hnode
+  obtain ⟨ts', h2, hc⟩ := mapKvs_content (deep .tree false (fuelOf w.heap))
+    (fun h v h' v' => deep_ext _ _ _ h v h' v')
+    (fun h v h1 v1 hd => deep_content _ _ _ h v h1 v1 hd) _ _ _ _ hmap false false k _ (absKvs_sort hts)
+  have e : Ext h1 (h1 ++ [Obj.dict false (kvErase kvs' key)]) := Ext.append _ _
+  have hnew : (h1 ++ [Obj.dict false (kvErase kvs' key)])[h1.length]? = some (Obj.dict false (kvErase kvs' key)) := by simp
+  obtain ⟨tc', hl', hv'⟩ := absKvs_get h2 hget
+  have hl : lookupT key (canonKvs ts') = some (canon tc') := by rw [lookupT_canonKvs, hl']; rfl
+  rw [hc, lookupT_canonKvs] at hl
+  cases hlk : lookupT key (sortKvs ts0) with
+  | none => rw [hlk] at hl; cases hl
+  | some tc =>
+    rw [hlk] at hl
+    simp at hl
+    refine ⟨_, value, .node false (kvErase ts' key), tc', tc, rfl, ?_, ?_, rfl, absVal_ext e k false value tc' hv', hl.symm⟩
+    · rw [absVal_dict hnew]
+      rw [absKvs_mono (fun p _ t ht => absVal_ext e k false p.2 t ht) (absKvs_erase key h2)]
+      rfl
+    · show canon _ = canon _
+      rw [canon_node, canon_node, canonKvs_erase, hc, ← canonKvs_erase]
+
+/-! ## distinct keys come from the heap invariant, not from a hypothesis -/
+
+private theorem absKvs_keys {f : Val → Option Tree} : ∀ {kvs : List (Key × Val)} {ts : List (Key × Tree)},
+    absKvs f kvs = some ts → ts.map (·.1) = kvs.map (·.1) := by
+  intro kvs
+  induction kvs with
+  | nil => intro ts h; simp [absKvs] at h; subst h; rfl
+  | cons p r ih =>
+    intro ts h
+    obtain ⟨k, v⟩ := p
+    obtain ⟨t, ts0, _, hr, rfl⟩ := absKvs_cons_some.mp h
+    simp [ih hr]
+
+private theorem absKvs_mem {f : Val → Option Tree} : ∀ {kvs : List (Key × Val)} {ts : List (Key × Tree)},
+    absKvs f kvs = some ts → ∀ q ∈ ts, ∃ p ∈ kvs, f p.2 = some q.2 := by
+  intro kvs
+  induction kvs with
+  | nil => intro ts h; simp [absKvs] at h; subst h; simp
+  | cons p r ih =>
+    intro ts h
+    obtain ⟨k, v⟩ := p
+    obtain ⟨t, ts0, hv, hr, rfl⟩ := absKvs_cons_some.mp h
+    intro q hq
+    simp at hq
+    rcases hq with rfl | hq
+    · exact ⟨(k, v), by simp, hv⟩
+    · obtain ⟨p, hp, hfp⟩ := ih hr q hq
+      exact ⟨p, by simp [hp], hfp⟩
+
+private theorem wfKvs_of_forall : ∀ {ts : List (Key × Tree)}, (∀ q ∈ ts, wfTree q.2 = true) → wfKvs ts = true := by
+  intro ts
+  induction ts with
+  | nil => intro _; rfl
+  | cons q r ih =>
+    intro h
+    obtain ⟨k, t⟩ := q
+    simp only [wfKvs, Bool.and_eq_true]
+    exact ⟨h (k, t) (by simp), ih (fun q hq => h q (by simp [hq]))⟩
+
+/-- **Every abstract value read off a heap satisfying the invariant has distinct keys at every
+level** — so `eq_order_independent`, `flatten_order_independent` and `mapEq_same_content` apply to
+all values the model can produce without any side condition (next theorem). -/
+theorem abs_wfTree (h : Heap) (hi : HeapInv h) : ∀ (k : Nat) (fz : Bool) (v : Val) (t : Tree),
+    absVal fz k h v = some t → wfTree t = true := by
+  intro k
+  induction k with
+  | zero =>
+    intro fz v t ha
+    cases v with
+    | leaf l => simp [absVal] at ha; subst ha; rfl
+    | ref a => simp [absVal] at ha
+  | succ k ih =>
+    intro fz v t ha
+    cases v with
+    | leaf l => simp [absVal] at ha; subst ha; rfl
+    | ref a =>
+      cases hg : h[a]? with
+      | none => simp [absVal, hg] at ha
+      | some o =>
+        cases o with
+        | dict own kvs =>
+          rw [absVal_dict hg] at ha
+          simp only [Option.map_eq_some_iff] at ha
+          obtain ⟨ts, hts, rfl⟩ := ha
+          simp only [wfTree, Bool.and_eq_true, decide_eq_true_eq]
+          refine ⟨by rw [absKvs_keys hts]; exact hi.keys_nodup a own kvs hg, wfKvs_of_forall ?_⟩
+          intro q hq
+          obtain ⟨p, _, hfp⟩ := absKvs_mem hts q hq
+          exact ih fz p.2 q.2 hfp
+        | frozen i =>
+          obtain ⟨k0, oi, kvsi, ts, hk, hgi, hts, rfl⟩ := absVal_frozen_inv hg ha
+          have hk : k0 = k := by omega
+          subst hk
+          simp only [wfTree, Bool.and_eq_true, decide_eq_true_eq]
+          refine ⟨by rw [absKvs_keys hts]; exact hi.keys_nodup i oi kvsi hgi, wfKvs_of_forall ?_⟩
+          intro q hq
+          obtain ⟨p, _, hfp⟩ := absKvs_mem hts q hq
+          exact ih true p.2 q.2 hfp
+
+/-- **Equal contents compare, hash and flatten equal regardless of insertion order — for every two
+values of every reachable world**, no side condition: the distinct-keys hypothesis of the tree-level
+theorems is discharged by the invariant. -/
+theorem heap_values_order_independent (H : HashFns) (ops : List Op) (v1 v2 : Val) (k1 k2 : Nat)
+    (fz1 fz2 : Bool) (t1 t2 : Tree)
+    (h1 : absVal fz1 k1 (run World.init ops).heap v1 = some t1)
+    (h2 : absVal fz2 k2 (run World.init ops).heap v2 = some t2) (hm : MapEq t1 t2) :
+    treeEq t1 t2 = true ∧ treeHash H t1 = treeHash H t2 ∧ SameContent t1 t2 ∧
+    (flattenS t1).1 = (flattenS t2).1 ∧ untagDef (flattenS t1).2 = untagDef (flattenS t2).2 := by
+  have hw := abs_wfTree _ (sep_run ops _ sep_init).heap k2 fz2 v2 t2 h2
+  exact ⟨eq_order_independent t1 t2 hm hw, hash_order_independent H t1 t2 hm, mapEq_same_content t1 t2 hm hw,
+    (flatten_order_independent t1 t2 hm hw).1, (flatten_order_independent t1 t2 hm hw).2⟩
+
+/-- user structures too: on any acyclic value (depth within the fuel) `unfreeze` and `tree_map` succeed -/
+theorem acyclic_api_total (w : World) (x : Nat) (v : Val) (hx : w.roots[x]? = some v)
+    (d : Depth w.heap v (fuelOf w.heap)) :
+    (∃ w', step w (.unfreeze x) = .ok w') ∧ (∃ w', step w (.treeMap x) = .ok w') := by
+  obtain ⟨⟨h1, r1⟩, hr1⟩ := deep_total _ .unfreeze false _ _ d
+  obtain ⟨⟨h2, r2⟩, hr2⟩ := deep_total _ .tree false _ _ d
+  refine ⟨?_, ?_⟩
+  · simp only [step, hx, hr1]; exact ⟨_, rfl⟩
+  · simp only [step, hx, hr2]; exact ⟨_, rfl⟩
+
+/-! ## `x.copy(add_or_replace)`: the entries of `x` overridden / extended by those of `add` -/
+
+private theorem lookupT_kvSet (l : List (Key × Tree)) (k key : Key) (t : Tree) :
+    lookupT key (kvSet l k t) = if k = key then some t else lookupT key l := by
+  induction l with
+  | nil => simp [kvSet, lookupT]
+  | cons q r ih =>
+    obtain ⟨k', t'⟩ := q
+    simp only [kvSet]
+    split
+    · rename_i hk; subst hk
+      simp only [lookupT]
+      split <;> rfl
+    · rename_i hk
+      simp only [lookupT, ih]
+      by_cases h1 : k' = key
+      · have : k ≠ key := by intro e; exact hk (h1.trans e.symm)
+        simp [h1, this]
+      · simp [h1]
+
+private theorem lookupT_none_iff {l : List (Key × Tree)} {key : Key} :
+    lookupT key l = none ↔ key ∉ l.map (·.1) := by
+  induction l with
+  | nil => simp [lookupT]
+  | cons q r ih =>
+    obtain ⟨k', t'⟩ := q
+    simp only [lookupT]
+    by_cases h1 : k' = key
+    · simp [h1]
+    · have h2 : ¬ key = k' := fun e => h1 e.symm
+      simp [h1, h2, ih]
+
+private theorem lookupT_mem {l : List (Key × Tree)} {key : Key} {t : Tree} (h : lookupT key l = some t) : (key, t) ∈ l := by
+  induction l with
+  | nil => simp [lookupT] at h
+  | cons q r ih =>
+    obtain ⟨k', t'⟩ := q
+    simp only [lookupT] at h
+    split at h
+    · rename_i hk; simp at h; simp [hk, h]
+    · simp [ih h]
+
+private theorem lookupT_kvUpdate {b : List (Key × Tree)} (hn : (b.map (·.1)).Nodup) (key : Key) :
+    ∀ (a : List (Key × Tree)), lookupT key (kvUpdate a b) =
+      match lookupT key b with
+      | some t => some t
+      | none => lookupT key a := by
+  induction b with
+  | nil => intro a; simp [kvUpdate, lookupT]
+  | cons q r ih =>
+    intro a
+    obtain ⟨k', t'⟩ := q
+    simp only [List.map_cons, List.nodup_cons] at hn
+    have : kvUpdate a ((k', t') :: r) = kvUpdate (kvSet a k' t') r := rfl
+    rw [this, ih hn.2, lookupT_kvSet]
+    simp only [lookupT]
+    by_cases h1 : k' = key
+    · subst h1
+      rw [lookupT_none_iff.mpr hn.1]
+      simp
+    · simp [h1]
+
+private theorem lookupT_sortKvs {l : List (Key × Tree)} (hn : (l.map (·.1)).Nodup) (key : Key) :
+    lookupT key (sortKvs l) = lookupT key l := by
+  cases h : lookupT key l with
+  | none =>
+    rw [lookupT_none_iff] at h ⊢
+    intro hm
+    exact h (((sortKvs_perm l).map (·.1)).mem_iff.mp hm)
+  | some t =>
+    exact lookupT_of_mem (nodup_sortKvs hn) (mem_sortKvs_iff.mpr (lookupT_mem h))
+
+private theorem canonKvs_kvSet (l : List (Key × Tree)) (k : Key) (t : Tree) :
+    canonKvs (kvSet l k t) = kvSet (canonKvs l) k (canon t) := by
+  induction l with
+  | nil => rfl
+  | cons q r ih =>
+    obtain ⟨k', t'⟩ := q
+    simp only [kvSet, canonKvs]
+    split <;> simp [canonKvs, ih]
+
+private theorem canonKvs_kvUpdate (b : List (Key × Tree)) : ∀ (a : List (Key × Tree)),
+    canonKvs (kvUpdate a b) = kvUpdate (canonKvs a) (canonKvs b) := by
+  induction b with
+  | nil => intro a; rfl
+  | cons q r ih =>
+    intro a
+    obtain ⟨k', t'⟩ := q
+    have h1 : kvUpdate a ((k', t') :: r) = kvUpdate (kvSet a k' t') r := rfl
+    have h2 : kvUpdate (canonKvs a) (canonKvs ((k', t') :: r)) = kvUpdate (kvSet (canonKvs a) k' (canon t')) (canonKvs r) := rfl
+    rw [h1, h2, ih, canonKvs_kvSet]
+
+private theorem absKvs_kvSet {f : Val → Option Tree} {k : Key} {v : Val} {t : Tree} (hv : f v = some t) :
+    ∀ {l : List (Key × Val)} {ts : List (Key × Tree)}, absKvs f l = some ts →
+      absKvs f (kvSet l k v) = some (kvSet ts k t) := by
+  intro l
+  induction l with
+  | nil => intro ts h; simp [absKvs] at h; subst h; simp [kvSet, absKvs, hv]
+  | cons q r ih =>
+    intro ts h
+    obtain ⟨k2, v2⟩ := q
+    obtain ⟨t2, ts0, hv2, hr, rfl⟩ := absKvs_cons_some.mp h
+    simp only [kvSet]
+    split
+    · exact absKvs_cons_some.mpr ⟨t, ts0, hv, hr, rfl⟩
+    · exact absKvs_cons_some.mpr ⟨t2, _, hv2, ih hr, rfl⟩
+
+private theorem absKvs_kvUpdate {f : Val → Option Tree} : ∀ {ys : List (Key × Val)} {b : List (Key × Tree)}
+    {xs : List (Key × Val)} {a : List (Key × Tree)}, absKvs f xs = some a → absKvs f ys = some b →
+      absKvs f (kvUpdate xs ys) = some (kvUpdate a b) := by
+  intro ys
+  induction ys with
+  | nil => intro b xs a hx hy; simp [absKvs] at hy; subst hy; exact hx
+  | cons q r ih =>
+    intro b xs a hx hy
+    obtain ⟨k, v⟩ := q
+    obtain ⟨t, b0, hv, hr, rfl⟩ := absKvs_cons_some.mp hy
+    have h1 : kvUpdate xs ((k, v) :: r) = kvUpdate (kvSet xs k v) r := rfl
+    have h2 : kvUpdate a ((k, t) :: b0) = kvUpdate (kvSet a k t) b0 := rfl
+    rw [h1, h2]
+    exact ih (absKvs_kvSet hv hx) hr
+
+private theorem getC_of_canon_eq {f1 f2 : Bool} {l1 l2 : List (Key × Tree)}
+    (hc : canon (.node f1 l1) = canon (.node f2 l2)) (n1 : (l1.map (·.1)).Nodup) (n2 : (l2.map (·.1)).Nodup)
+    (key : Key) : (lookupT key l1).map canon = (lookupT key l2).map canon := by
+  rw [canon_node, canon_node] at hc
+  injection hc with _ hc
+  rw [← lookupT_canonKvs, ← lookupT_canonKvs,
+    ← lookupT_sortKvs (l := canonKvs l1) (by rw [canonKvs_keys]; exact n1),
+    ← lookupT_sortKvs (l := canonKvs l2) (by rw [canonKvs_keys]; exact n2), hc]
+
+private theorem nodup_of_wf {f : Bool} {l : List (Key × Tree)} (h : wfTree (.node f l) = true) : (l.map (·.1)).Nodup := by
+  simp only [wfTree, Bool.and_eq_true, decide_eq_true_eq] at h; exact h.1
+
+/-- **`fd.copy(add)` has exactly the entries of `fd` overridden / extended by the entries of `add`**
+(a dict or a FrozenDict), each with the same contents as in its source: for every key, the result's
+entry is `add`'s entry when `add` has the key, otherwise `fd`'s entry (absent when neither has it).
+All of it deep-copied: `frozen_separation` applies to the result. -/
+theorem copy_add_content (w w' : World) (hsep : Sep w) (x ai : Nat) (f i : Addr) (av : Val) (k : Nat)
+    (fa : Bool) (tsx tsa : List (Key × Tree))
+    (hs : step w (.copy x (some ai)) = .ok w') (hx : w.roots[x]? = some (.ref f))
+    (hf : w.heap[f]? = some (Obj.frozen i)) (hadd : w.roots[ai]? = some av)
+    (hax : absVal false (k + 1) w.heap (.ref f) = some (.node true tsx))
+    (haa : absVal false (k + 1) w.heap av = some (.node fa tsa)) :
+    ∃ r fr tsr, w'.roots = w.roots ++ [r] ∧ absVal false (k + 1) w'.heap r = some (.node fr tsr) ∧
+      ∀ key, (lookupT key tsr).map canon =
+        match (lookupT key tsa).map canon with
+        | some c => some c
+        | none => (lookupT key tsx).map canon := by
+  have hsep' := step_preserves_sep w w' _ hsep hs
+  simp only [step, hx, hf, hadd] at hs
+  repeat' split at hs
+  all_goals first | cases hs | skip
+  rename_i h1 xs hd _ h2 u hdeep _ h3 ys hd2 _ h4 r hm
+  -- invariants of the intermediate heaps
+  obtain ⟨i1, u1⟩ := dictOf_spec hsep.heap (x := .ref f) (Or.inr ⟨i, hf⟩) hd
+  have e1 := dictOf_ext hd
+  obtain ⟨i2, u2⟩ := deep_user_spec (by simp) i1 (UserVal.mono e1 (root_valid hsep hadd)) hdeep
+  have e2 := deep_ext' hdeep
+  have e3 := dictOf_ext hd2
+  -- contents
+  obtain ⟨ts1, hts1, hc1⟩ := dictOf_content hd false false k _ hax
+  obtain ⟨tu, htu, hcu⟩ := deep_content _ _ _ _ _ _ _ hdeep false false (k + 1) _
+    (absVal_ext e1 (k + 1) false av _ haa)
+  obtain ⟨ts2, hts2, hc2⟩ := dictOf_content hd2 false false k tu htu
+  have hts1' : absKvs (absVal false k h3) xs = some ts1 :=
+    absKvs_mono (fun p _ t ht => absVal_ext (e2.trans e3) k false p.2 t ht) hts1
+  obtain ⟨t', ht', hc'⟩ := mkFrozen_content hm false false k _ (absKvs_kvUpdate hts1' hts2)
+  -- distinct keys everywhere
+  have n1 : (ts1.map (·.1)).Nodup := by rw [absKvs_keys hts1]; exact dictOf_nodup hsep.heap hd
+  have n2 : (ts2.map (·.1)).Nodup := by rw [absKvs_keys hts2]; exact dictOf_nodup i2 hd2
+  have nx := nodup_of_wf (abs_wfTree _ hsep.heap _ _ _ _ hax)
+  have na := nodup_of_wf (abs_wfTree _ hsep.heap _ _ _ _ haa)
+  cases t' with
+  | leaf l => rw [canon_node] at hc'; simp [canon] at hc'
+  | node fr tsr =>
+    have nr := nodup_of_wf (abs_wfTree _ hsep'.heap _ _ _ _ ht')
+    refine ⟨r, fr, tsr, rfl, ht', ?_⟩
+    intro key
+    rw [getC_of_canon_eq hc' nr (nodup_kvUpdate n1) key, ← lookupT_canonKvs, canonKvs_kvUpdate,
+      lookupT_kvUpdate (by rw [canonKvs_keys]; exact n2), lookupT_canonKvs, lookupT_canonKvs,
+      getC_of_canon_eq (hc2.trans hcu) n2 na key, getC_of_canon_eq hc1 n1 nx key]
+
+/-! ## the `_hash` cache never goes stale (cache modelled explicitly) -/
+
+/-- every cached hash is the hash one would compute now -/
+def CacheOk (H : HashFns) (hw : HWorld) : Prop :=
+  Sep hw.w ∧ ∀ f c, (f, c) ∈ hw.cache →
+    (∃ i, hw.w.heap[f]? = some (Obj.frozen i)) ∧ freshHash H hw.w.heap f = some c
+
+private theorem cacheGet_mem {cache : List (Addr × Nat)} {f : Addr} {c : Nat} (h : cacheGet cache f = some c) :
+    (f, c) ∈ cache := by
+  induction cache with
+  | nil => simp [cacheGet] at h
+  | cons q r ih =>
+    obtain ⟨a, c'⟩ := q
+    simp only [cacheGet] at h
+    split at h
+    · rename_i ha; simp at h; simp [ha, h]
+    · simp [ih h]
+
+private theorem step_length_le {w w' : World} {op : Op} (h : step w op = .ok w') : w.heap.length ≤ w'.heap.length := by
+  by_cases hop : op.isUserWrite = false
+  · exact (api_only_allocates w w' op hop h).1.length_le
+  · cases op <;> simp [Op.isUserWrite] at hop <;>
+      (simp only [step] at h; repeat' split at h) <;> (first | cases h | skip) <;> simp
+
+private theorem freshHash_step {H : HashFns} {w w' : World} {op : Op} (hs : Sep w) (h : step w op = .ok w')
+    {f i : Addr} (hf : w.heap[f]? = some (Obj.frozen i)) : freshHash H w'.heap f = freshHash H w.heap f := by
+  obtain ⟨ts, hts⟩ := frozen_value_defined w hs f i hf false
+  have hnc := (frozen_never_changes [op] w hs f i hf).2 false
+  simp only [run, h] at hnc
+  have hle := step_length_le h
+  simp only [freshHash]
+  rw [hnc, hts, absVal_fuel_le w.heap (k := fuelOf w.heap) (by simp [fuelOf]; omega) false _ _ hts]
+
+theorem cacheOk_init (H : HashFns) : CacheOk H HWorld.init :=
+  ⟨sep_init, by intro f c h; simp [HWorld.init] at h⟩
+
+/-- the cache invariant is preserved by every operation, `hash` included -/
+theorem hstep_preserves_cacheOk (H : HashFns) (hw hw' : HWorld) (op : HOp) (r : Option Nat)
+    (hc : CacheOk H hw) (h : hstep H hw op = .ok (hw', r)) : CacheOk H hw' := by
+  cases op with
+  | base op =>
+    simp only [hstep] at h
+    split at h
+    · rename_i w' hw1
+      simp at h; obtain ⟨rfl, _⟩ := h
+      refine ⟨step_preserves_sep _ _ _ hc.1 hw1, ?_⟩
+      intro f c hm
+      obtain ⟨⟨i, hf⟩, hh⟩ := hc.2 f c hm
+      have st := step_stable hc.1 hw1
+      exact ⟨⟨i, by rw [st f (Or.inr ⟨i, hf⟩)]; exact hf⟩, by rw [freshHash_step hc.1 hw1 hf]; exact hh⟩
+    · cases h
+  | hash x =>
+    simp only [hstep] at h
+    repeat' split at h
+    all_goals first | cases h | skip
+    · exact hc
+    · rename_i f _ _ i hf _ _ _ c hfresh
+      refine ⟨hc.1, ?_⟩
+      intro f' c' hm
+      simp at hm
+      rcases hm with ⟨rfl, rfl⟩ | hm
+      · exact ⟨⟨i, hf⟩, hfresh⟩
+      · exact hc.2 f' c' hm
+    · exact hc
+
+/-- the invariant holds after every history of API calls, user mutations and `hash` calls -/
+theorem cacheOk_hrun (H : HashFns) (ops : List HOp) : ∀ hw, CacheOk H hw → CacheOk H (hrun H hw ops) := by
+  induction ops with
+  | nil => intro hw hc; exact hc
+  | cons op ops ih =>
+    intro hw hc
+    simp only [hrun]
+    split
+    · rename_i hw' r hst; exact ih hw' (hstep_preserves_cacheOk H hw hw' op r hc hst)
+    · exact ih hw hc
+
+/-- **The hash cache never goes stale**: at any point of any history, whatever `hash(fd)` returns —
+computed now or read from `_hash`, however long ago it was stored and whatever mutations of sources
+and returned values happened since — is the hash of `fd`'s value computed afresh. -/
+theorem hash_returns_fresh_hash (H : HashFns) (ops : List HOp) (x : Nat) (f i : Addr) (hw' : HWorld) (c : Nat)
+    (hx : (hrun H HWorld.init ops).w.roots[x]? = some (.ref f))
+    (hf : (hrun H HWorld.init ops).w.heap[f]? = some (Obj.frozen i))
+    (h : hstep H (hrun H HWorld.init ops) (.hash x) = .ok (hw', some c)) :
+    freshHash H (hrun H HWorld.init ops).w.heap f = some c := by
+  have hc := cacheOk_hrun H ops _ (cacheOk_init H)
+  simp only [hstep, hx, hf] at h
+  split at h
+  · rename_i c' hget
+    simp at h
+    rw [← h.2]
+    exact (hc.2 f c' (cacheGet_mem hget)).2
+  · split at h
+    · rename_i c' hfresh; simp at h; rw [← h.2]; exact hfresh
+    · cases h
+
+/-- non-vacuity: hash, mutate the source and a returned copy, hash again — the second call is served
+from the cache and the hypotheses of `hash_returns_fresh_hash` hold -/
+private def exH : HashFns := ⟨fun s => s.length, fun l => match l with | .atom n => some n.toNat | .opq _ => none, fun a b => a * 31 + b⟩
+
+private def exHOps : List HOp :=
+  (demoPre.map HOp.base) ++ [.hash 3, .base (.setKey 2 "q" 1), .base (.unfreeze 3), .base (.setKey 4 "b" 1)]
+
+example : (hrun exH HWorld.init exHOps).w.roots[3]? = some (.ref 4) ∧
+    (hrun exH HWorld.init exHOps).w.heap[4]? = some (Obj.frozen 3) ∧
+    (hrun exH HWorld.init exHOps).cache.length = 1 ∧
+    (match hstep exH (hrun exH HWorld.init exHOps) (.hash 3) with
+     | .ok (_, some _) => true
+     | _ => false) = true := by decide
+
+/-- **`fd.copy(M)` where `M` is a Mapping that is neither a dict nor a FrozenDict**
+(`types.MappingProxyType` — the type of the parameter's own default —, `collections.ChainMap`,
+`collections.UserDict`, … viewing a held dict or FrozenDict): `unfreeze(M)` hands `M` back unchanged,
+so the nested dicts of `M` reach `{**self, **M}` *by reference*; it is the copying constructor that
+makes the result safe.  The result has `fd`'s entries overridden / extended by `M`'s, equal in
+content; `step_preserves_sep` / `frozen_separation` / `frozen_never_changes` cover the operation like
+every other one (it is a constructor of `Op`), so later mutations of `M`'s nested dicts cannot reach it. -/
+theorem copyView_add_content (w w' : World) (hsep : Sep w) (x ai : Nat) (f i : Addr) (av : Val) (k : Nat)
+    (fa : Bool) (tsx tsa : List (Key × Tree))
+    (hs : step w (.copyView x ai) = .ok w') (hx : w.roots[x]? = some (.ref f))
+    (hf : w.heap[f]? = some (Obj.frozen i)) (hadd : w.roots[ai]? = some av)
+    (hax : absVal false (k + 1) w.heap (.ref f) = some (.node true tsx))
+    (haa : absVal false (k + 1) w.heap av = some (.node fa tsa)) :
+    ∃ r fr tsr, w'.roots = w.roots ++ [r] ∧ absVal false (k + 1) w'.heap r = some (.node fr tsr) ∧
+      ∀ key, (lookupT key tsr).map canon =
+        match (lookupT key tsa).map canon with
+        | some c => some c
+        | none => (lookupT key tsx).map canon := by
+  have hsep' := step_preserves_sep w w' _ hsep hs
+  simp only [step, hx, hf, hadd] at hs
+  repeat' split at hs
+  all_goals first | cases hs | skip
+  rename_i h1 xs hd _ h2 ys hd2 _ h3 r hm
+  obtain ⟨i1, u1⟩ := dictOf_spec hsep.heap (x := .ref f) (Or.inr ⟨i, hf⟩) hd
+  have e1 := dictOf_ext hd
+  have e2 := dictOf_ext hd2
+  obtain ⟨ts1, hts1, hc1⟩ := dictOf_content hd false false k _ hax
+  obtain ⟨ts2, hts2, hc2⟩ := dictOf_content hd2 false false k _ (absVal_ext e1 (k + 1) false av _ haa)
+  have hts1' : absKvs (absVal false k h2) xs = some ts1 :=
+    absKvs_mono (fun p _ t ht => absVal_ext e2 k false p.2 t ht) hts1
+  obtain ⟨t', ht', hc'⟩ := mkFrozen_content hm false false k _ (absKvs_kvUpdate hts1' hts2)
+  have n1 : (ts1.map (·.1)).Nodup := by rw [absKvs_keys hts1]; exact dictOf_nodup hsep.heap hd
+  have n2 : (ts2.map (·.1)).Nodup := by rw [absKvs_keys hts2]; exact dictOf_nodup i1 hd2
+  have nx := nodup_of_wf (abs_wfTree _ hsep.heap _ _ _ _ hax)
+  have na := nodup_of_wf (abs_wfTree _ hsep.heap _ _ _ _ haa)
+  cases t' with
+  | leaf l => rw [canon_node] at hc'; simp [canon] at hc'
+  | node fr tsr =>
+    have nr := nodup_of_wf (abs_wfTree _ hsep'.heap _ _ _ _ ht')
+    refine ⟨r, fr, tsr, rfl, ht', ?_⟩
+    intro key
+    rw [getC_of_canon_eq hc' nr (nodup_kvUpdate n1) key, ← lookupT_canonKvs, canonKvs_kvUpdate,
+      lookupT_kvUpdate (by rw [canonKvs_keys]; exact n2), lookupT_canonKvs, lookupT_canonKvs,
+      getC_of_canon_eq hc2 n2 na key, getC_of_canon_eq hc1 n1 nx key]
 
 end Flax.C15
